@@ -561,7 +561,13 @@ func (dt *DateTime) String() string {
 	if dt == nil {
 		return ""
 	}
-	return strconv.Quote(time.Unix(0, int64(*dt)).String())
+	tm := time.Unix(0, int64(*dt))
+	if tm.Nanosecond() == 0 {
+		return strconv.Quote(tm.String())
+	}
+	// time.Time.String() drops the trailing zeros of the fraction, and a fraction of less than three digits
+	// is not read back by the date formats (.SSS): write all nine
+	return strconv.Quote(tm.Format("2006-01-02 15:04:05.000000000 -0700 MST"))
 }
 
 // === Size
